@@ -1,16 +1,14 @@
 package main
 
 import (
-	"encoding/json"
-	"fmt"
 	"go/ast"
 	"go/token"
 	"math/rand"
 	"os"
-	"os/exec"
 	"sort"
 	"strings"
 	"sync"
+	"sync/atomic"
 
 	"golang.org/x/tools/go/ssa"
 )
@@ -149,52 +147,37 @@ func runSelfTest(r *R, repo string, seed int, max int) map[string]interface{} {
 	if len(ms) > max {
 		ms = ms[:max]
 	}
-	tmp, err := os.MkdirTemp("", "arvcheck-selftest-")
-	if err != nil {
-		return map[string]interface{}{"error": err.Error()}
-	}
-	defer os.RemoveAll(tmp)
-	self, _ := os.Executable()
+	pd := props[r.Prop]
 	var wg sync.WaitGroup
 	sem := make(chan struct{}, 8)
+	var panics int32
 	for i, m := range ms {
 		wg.Add(1)
 		go func(i int, m *mutant) {
 			defer wg.Done()
 			sem <- struct{}{}
 			defer func() { <-sem }()
-			dir := fmt.Sprintf("%s/%d", tmp, i)
-			os.MkdirAll(dir, 0o755)
-			vf := dir + "/variant.go"
-			os.WriteFile(vf, m.src, 0o644)
-			ov, _ := json.Marshal(map[string]string{m.File: vf})
-			os.WriteFile(dir+"/overlay.json", ov, 0o644)
-			// a private copy of the known-findings file so listed findings stay suppressed
-			if b, err := os.ReadFile("/verif/known_findings.txt"); err == nil {
-				os.WriteFile(dir+"/known_findings.txt", b, 0o644)
-			}
-			cmd := exec.Command(self, "-prop", r.Prop, "-tier", "quick", "-repo", repo, "-verif", dir, "-overlay", dir+"/overlay.json")
-			cmd.Env = append(os.Environ(), "ARVCHECK_SELFTEST=1", "GOMAXPROCS=2", "GOGC=200")
-			outb, _ := cmd.CombinedOutput()
-			code := cmd.ProcessState.ExitCode()
-			switch code {
-			case 0:
-				m.Res = "survived"
-			case 1:
-				m.Res = "flagged"
-				for _, l := range strings.Split(string(outb), "\n") {
-					if strings.HasPrefix(l, "FAIL ") || strings.HasPrefix(l, "UNDECIDED ") {
-						f := strings.Fields(l)
-						if len(f) > 1 {
-							m.By = strings.SplitN(f[1], ":", 2)[0]
-						}
-						break
-					}
+			defer func() {
+				if e := recover(); e != nil {
+					// a rule that cannot cope with the variant's shape: the real run would fail the same way
+					m.Res = "flagged"
+					m.By = "checker-panic"
+					atomic.AddInt32(&panics, 1)
 				}
-			default:
+			}()
+			vw, err := r.W.Variant(m.File, m.src)
+			if err != nil {
 				m.Res = "not_compiled"
+				return
 			}
-			os.RemoveAll(dir)
+			vr := NewR(vw, r.Prop, "quick")
+			pd.Run(vr)
+			if fail, by := vr.Verdict("/verif"); fail {
+				m.Res = "flagged"
+				m.By = by
+			} else {
+				m.Res = "survived"
+			}
 		}(i, m)
 	}
 	wg.Wait()
@@ -232,7 +215,8 @@ func runSelfTest(r *R, repo string, seed int, max int) map[string]interface{} {
 		fnNames = append(fnNames, fnShort(f))
 	}
 	return map[string]interface{}{
-		"what":              "one-edit variants (negate if, swap comparison/logic operator, delete call/defer/return/continue/break/assignment) of the functions named by this property's obligations, analysed through a go/packages overlay in separate processes; nothing is executed and /repo is not touched",
+		"checker_panics":    int(panics),
+		"what":              "one-edit variants (negate if, swap comparison/logic operator, delete call/defer/return/continue/break/assignment) of the functions named by this property's obligations, analysed in process: the edited file is re-parsed and its package plus every loaded package importing it are type-checked again and rebuilt into a new SSA program, then the same rules run; nothing is executed and /repo is not touched",
 		"functions":         fnNames,
 		"variants_possible": total,
 		"variants_tried":    len(ms),
@@ -241,7 +225,7 @@ func runSelfTest(r *R, repo string, seed int, max int) map[string]interface{} {
 		"survived":          counts["survived"],
 		"flagged_by_rule":   byRule,
 		"flagged_examples":  rel(flagged, 12),
-		"survivors":         rel(survivors, 60),
+		"survivors":         rel(survivors, 400),
 		"note":              "survivors are edits the rules do not react to: either behaviour-neutral for this property (logging, metrics, unrelated branches) or outside the decided clauses listed under not_decided; they do not affect the verdict",
 	}
 }
